@@ -92,6 +92,26 @@ func (vc *VC) Generate() (err error) {
 	vc.reset(false)
 	vc.run()
 	vc.addRelevantAxioms()
+	if len(vc.strlits) > 0 {
+		names := []string{"str_empty"}
+		for _, n := range vc.strlits {
+			names = append(names, n)
+		}
+		sort.Strings(names)
+		vc.global("(distinct " + strings.Join(names, " ") + ")")
+	}
+	{
+		var fns []string
+		for n := range vc.dset {
+			if strings.HasPrefix(n, "fn_") {
+				fns = append(fns, n)
+			}
+		}
+		if len(fns) > 1 {
+			sort.Strings(fns)
+			vc.global("(distinct " + strings.Join(fns, " ") + ")")
+		}
+	}
 	vc.replay = nil
 	vc.buildReplayTerms()
 	return nil
